@@ -572,7 +572,14 @@ def run(chk):
     try:
         n_exact, n_gen = chk.n(45, 450), chk.n(45, 450)
         for it in range(n_exact):
-            run_case(chk, drv, exact_case(rng, chk, it), stats)
+            c_ = exact_case(rng, chk, it)
+            if it % 8 == 5:
+                # an operator for a time step that is exactly zero (a stage of weight 0; an identity used for testing): every surface is
+                # left as it is, whatever constants.dt says
+                c_['dt'] = 0.0
+                c_['v'] = [-1.5, 0.0, 2.0, 7.25]
+                chk.count('operators built with dt = 0')
+            run_case(chk, drv, c_, stats)
         for it in range(n_gen):
             run_case(chk, drv, generic_case(rng, chk, it), stats)
         for it in range(chk.n(12, 120)):
